@@ -14,9 +14,9 @@
 (*           raw_entry_of, permissions_of for one entry                     *)
 (* An event is accepted iff the listing is admitted and the observed result *)
 (* is the reference's (RoundTrip per accessor) and the accessors agree with *)
-(* each other (Law:*).  Verdicts are total and per event: a rejected event  *)
-(* is recorded with the failing clause and the abstract features of the     *)
-(* failing input; the remaining events of the trace are still judged.       *)
+(* each other (the Law clauses).  Verdicts are total, per event: a rejected  *)
+(* event is recorded with the failing clause and the abstract features of  *)
+(* the failing input; the remaining events of the trace are still judged.  *)
 (***************************************************************************)
 EXTENDS LsListing, Json, IOUtils, TLCExt
 
@@ -84,11 +84,14 @@ DirOK ==
     /\ Len(Ev.files) + Len(Ev.dirs) + Len(Ev.specials) = Len(Ev.lkeys)              \* Law:one-class-per-name
     /\ (Ev.aname \notin names) => (~Ev.acontains /\ Ev.ape = "none" /\ Ev.araw = "none")   \* AbsentName
 
+NotProbed == 0 - 3
 TotalOK ==
     ~Found(Ev.d) \/
     /\ Ev.exc = ""
     /\ Ev.total >= 0                                                                \* an integer at all
     /\ DirOf(Ev).total >= 0 => Ev.total = DirOf(Ev).total
+    /\ Ev.solo # NotProbed => Ev.total = Ev.solo        \* Law:concatenation - without total line the docstrings demand no
+                                                       \* value, but it is the directory's own: the same when listed alone
 
 EntOK ==
     ~Found(Ev.d) \/
@@ -110,7 +113,7 @@ WellFormed ==
     /\ Ev.ev = "ent" => Ev.e \in DOMAIN D.dirs[Ev.d].ents
 
 Accepts ==
-    /\ WellFormed /\ Admits(D)
+    /\ WellFormed /\ (l = 0 => Admits(D))            \* a listing outside the quantifier is left at its parse event
     /\ CASE Ev.ev = "parse" -> ParseOK
          [] Ev.ev = "dir"   -> DirOK
          [] Ev.ev = "total" -> TotalOK
@@ -123,17 +126,20 @@ NameFeat(nm) ==
     B(\E i \in DOMAIN nm : Blank(nm[i]), ":blank") \o B(nm[1] = "-", ":leading-dash") \o B(Contains(nm, <<",">>), ":comma")
     \o B(Contains(nm, <<":">>), ":colon") \o B(nm[1] = "t" /\ Contains(nm, <<"t", "o", "t", "a", "l">>), ":total-like")
     \o B(nm[1] = ".", ":dot")
-EntFeat(e) ==
-    ":" \o D.fmt
-    \o B(ArrowEnt(e), ":non-link-with-arrow") \o B(e.t = "l", ":link") \o B(e.t = "l" /\ Contains(e.target, Arrow), ":arrow-in-target")
-    \o B(CommaEnt(e, D.fmt), ":comma-after-context")
-    \o B(MlsCatEnt(e, D.fmt), ":mls-with-categories") \o B(ShortCtxEnt(e, D.fmt), ":context-with-fewer-than-four-parts")
+LinkFeat(e) == B(e.t = "l", ":link") \o B(e.t = "l" /\ Contains(e.target, Arrow), ":arrow-in-target")
+               \o B(e.t = "l" /\ \E i \in DOMAIN e.target : Blank(e.target[i]), ":blank-in-target")
+(* a known-defect class of the entry that bears on the clause is the whole feature *)
+NamesTag(e) == ":" \o D.fmt \o (IF ArrowEnt(e) THEN ":non-link-with-arrow" ELSE ":type=" \o e.t \o NameFeat(e.name))
+SeTag(e)    == IF MlsCatEnt(e, D.fmt) THEN ":mls-with-categories"
+               ELSE IF ShortCtxEnt(e, D.fmt) THEN ":context-with-fewer-than-four-parts" ELSE ""
 FieldFeat(f, e) ==
     CASE f \in {"size", "major", "minor"} -> B(IsDev(e), ":device")
       [] f = "date" -> IF e.date[8] = " " THEN ":year-form" ELSE ":time-form"
-      [] f \in {"name", "link"} -> NameFeat(e.name) \o B(e.t = "l" /\ \E i \in DOMAIN e.target : Blank(e.target[i]), ":blank-in-target")
+      [] f \in {"name", "link"} -> IF ArrowEnt(e) THEN ":non-link-with-arrow" ELSE NameFeat(e.name) \o LinkFeat(e)
       [] f = "perms" -> B(e.mark # <<>>, ":marked")
       [] f \in {"owner", "group", "links"} -> B(IsDigit(e.owner[1]), ":numeric-owner")
+      [] f = "se" -> SeTag(e)
+      [] f = "type" -> ":type=" \o e.t
       [] OTHER -> ""
 DirFeat(i) ==
     LET nm == D.dirs[i].name IN
@@ -159,13 +165,13 @@ DiagDir ==
     LET nd == NormD(Ev.d)  names == {nd.ents[j].name : j \in DOMAIN nd.ents}
         ents == D.dirs[Ev.d].ents
         \* the first expected entry that a list lacks / misplaces
-        lack(obs, T) == LET c == {j \in DOMAIN ents : ents[j].t \in T /\ ents[j].name \notin Rng(obs)} IN
+        lack(obs, TS) == LET c == {j \in DOMAIN ents : ents[j].t \in TS /\ ents[j].name \notin Rng(obs)} IN
                         IF c = {} THEN "order-or-extra" ELSE LET j == CHOOSE j \in c : \A k \in c : j <= k IN
-                            "missing:type=" \o ents[j].t \o EntFeat(ents[j]) \o NameFeat(ents[j].name) IN
+                            "missing" \o NamesTag(ents[j]) IN
     IF Ev.exc # "" THEN "DirAccessors:exception:" \o Ev.exc \o DirFeat(Ev.d)
     ELSE IF ~Ev.isin THEN "Contains:listed-directory-not-in" \o DirFeat(Ev.d)
     ELSE IF ~(Rng(Ev.lkeys) = names /\ Len(Ev.lkeys) = Cardinality(names)) THEN
-        "ListingOf:keys:" \o lack(Ev.lkeys, Types) \o Struct
+        "ListingOf:keys:" \o lack(Ev.lkeys, Types)
     ELSE IF Ev.files # nd.files THEN "FilesOf:" \o lack(Ev.files, Types \ {"b", "c", "d"})
     ELSE IF Ev.dirs # nd.dirs THEN "DirsOf:" \o lack(Ev.dirs, {"d"})
     ELSE IF Ev.specials # nd.specials THEN "SpecialsOf:" \o lack(Ev.specials, {"b", "c"})
@@ -177,28 +183,36 @@ DiagDir ==
 DiagTotal ==
     LET d == DirOf(Ev) IN
     IF Ev.exc # "" THEN "TotalOf:exception:" \o Ev.exc
+    ELSE IF Ev.total >= 0 /\ d.total < 0 /\ Ev.solo # NotProbed THEN
+        "Law:total_of:differs-when-listed-alone:no-total-line" \o (IF Ev.d = Len(D.dirs) THEN ":last" ELSE ":non-last")
     ELSE "TotalOf:" \o (IF d.total < 0 THEN "no-total-line" ELSE IF d.total = 0 THEN "zero" ELSE "positive")
          \o (IF Ev.d = Len(D.dirs) THEN ":last" ELSE ":non-last") \o (IF d.ents = <<>> THEN ":empty" ELSE ":has-entries")
          \o B(D.hl, ":head-less")
 
+(* another entry of the directory is a non-link whose name up to its arrow is this entry's name *)
+Shadowed(e) == \E e2 \in Rng(D.dirs[Ev.d].ents) : ArrowEnt(e2) /\ BeforeFirst(e2.name, Arrow) = e.name
 DiagEnt ==
-    LET e == EntOf(Ev)  x == ExpEnt(Ev) IN
+    LET e == EntOf(Ev)  x == ExpEnt(Ev)  fm == ":" \o D.fmt IN
     IF ~Ev.inlist THEN "Law:dir_contains<=>listing_of:not-listed-but-contained"
-    ELSE IF Ev.exc # "" THEN "DirEntry:exception:" \o Ev.exc \o EntFeat(e)
+    ELSE IF Shadowed(e) THEN "DirEntry:shadowed-by-non-link-with-arrow" \o fm
+    ELSE IF Ev.exc # "" THEN "DirEntry:exception:" \o Ev.exc \o fm \o LinkFeat(e) \o B(IsDev(e), ":device")
     ELSE IF ~EntryOK(Ev.de, x, Ev.line) THEN
-        LET f == BadFields(Ev.de, x, Ev.line)[1] IN "DirEntry:" \o f \o EntFeat(e) \o FieldFeat(f, e)
-    ELSE IF Ev.le # Ev.de THEN "Law:listing_of=dir_entry" \o EntFeat(e)
+        LET f == BadFields(Ev.de, x, Ev.line)[1] IN "DirEntry:" \o f \o fm \o FieldFeat(f, e)
+    ELSE IF Ev.le # Ev.de THEN "Law:listing_of=dir_entry" \o fm
     ELSE IF ~Ev.contains THEN "Law:dir_contains<=>listing_of:listed-but-not-contained"
     ELSE IF Ev.pep /\ Ev.pe # Ev.de THEN
         "Law:path_entry=dir_entry:" \o (IF Ev.pe.some THEN "other-entry" ELSE "none")
         \o (IF KeyD(Ev.d) = Slash THEN ":directory-is-root" ELSE DirFeat(Ev.d) \o NameFeat(e.name))
     ELSE IF ~(Ev.rawkind = "str" /\ Ev.raw = RoughTokens(e, D.fmt)) THEN
-        "RawEntryOf:" \o (IF Ev.rawkind = "str" THEN "fields-differ" ELSE Ev.rawkind) \o EntFeat(e) \o B(IsDev(e), ":device")
-    ELSE "PermissionsOf:" \o (IF Ev.permkind = "obj" THEN "attributes-differ" ELSE Ev.permkind) \o EntFeat(e)
+        "RawEntryOf:" \o (IF Ev.rawkind = "str" THEN "fields-differ" ELSE Ev.rawkind) \o fm
+        \o (IF SeTag(e) # "" THEN SeTag(e)
+            ELSE B(e.t = "l", ":link") \o B(IsDev(e), ":device") \o B(\E i \in DOMAIN e.name : Blank(e.name[i]), ":blank"))
+    ELSE "PermissionsOf:" \o (IF Ev.permkind = "obj" THEN "attributes-differ" ELSE Ev.permkind)
+         \o B(e.t = "l", ":link") \o B(IsDev(e), ":device")
 
 Diagnose ==
     IF ~WellFormed THEN "malformed-event"
-    ELSE IF ~Admits(D) THEN "not-admitted"
+    ELSE IF l = 0 /\ ~Admits(D) THEN "not-admitted"
     ELSE CASE Ev.ev = "parse" -> DiagParse
            [] Ev.ev = "dir"   -> DiagDir
            [] Ev.ev = "total" -> DiagTotal
@@ -220,7 +234,7 @@ TraceNext ==
          ELSE IF Accepts
            THEN l' = l + 1 /\ tid' = tid /\ UNCHANGED vars
            ELSE /\ TLCSet(1, TLCGet(1) \cup {[id |-> TR.id, line |-> l + 1, clause |-> Diagnose]})
-                /\ IF WellFormed /\ Admits(D) /\ ~(Ev.ev = "parse" /\ Ev.exc # "")
+                /\ IF WellFormed /\ (l > 0 \/ Admits(D)) /\ ~(Ev.ev = "parse" /\ Ev.exc # "")
                      THEN l' = l + 1 /\ tid' = tid /\ UNCHANGED vars
                      ELSE TLCSet(2, TLCGet(2) + l) /\ Advance
 TraceSpec == TraceInit /\ [][TraceNext]_tvars
